@@ -61,26 +61,35 @@ def replay_failure(prop, res, ov, run_one):
     h2.timeout = h.timeout * 2
     r2 = run_one(h2, ov, os.path.join(ov, "t_replay"), extra=["-Z", "concrete-playback", "--concrete-playback=print"])
     logtext = open(r2.log_path, errors="replace").read() if r2.log_path else ""
-    tm = re.search(r"Concrete playback unit test for `[^`]*`:\s*```\n(.*?)```", logtext, re.S)
-    m = re.search(r"fn (kani_concrete_playback_\w+)\s*\(", tm.group(1)) if tm else None
-    if not tm or not m:
+    # Kani prints one unit test per failed check AND per satisfied cover point: keep the ones
+    # generated for failed checks (every test is tried; one native failure is a reproduction)
+    blocks = re.findall(r"Concrete playback unit test for `[^`]*`:\s*```\n(.*?)```", logtext, re.S)
+    non_cover = [b for b in blocks if not re.search(r"Check for `cover`", b)]
+    blocks = non_cover or blocks
+    tests = []
+    for b in blocks:
+        m = re.search(r"fn (kani_concrete_playback_\w+)\s*\(", b)
+        if m and m.group(1) not in [t for t, _ in tests]:
+            tests.append((m.group(1), b))
+    tests = tests[:6]
+    if not tests:
         out["why"] = "Kani produced no concrete playback test (%s)" % (r2.reason or r2.status)
         rec["replay"] = out
         with open(path, "w") as fh:
             json.dump(rec, fh, indent=1)
         return out
-    test = m.group(1)
-    rec["concrete_test"] = tm.group(1)
+    rec["concrete_tests"] = [b for _, b in tests]
     with open(hfile, "a") as fh:
-        fh.write("\n" + tm.group(1) + "\n")
-    vals = re.findall(r"//\s*(.*)\n\s*vec!\[([0-9, ]*)\]", tm.group(1))
+        for _, b in tests:
+            fh.write("\n" + b + "\n")
+    vals = re.findall(r"//\s*(.*)\n\s*vec!\[([0-9, ]*)\]", tests[0][1])
     rec["assignment"] = [{"value": a_.strip(), "bytes": b_.strip()} for a_, b_ in vals][:300]
     # 2. run it natively (dev profile, the one Kani models; `cargo kani playback` has no
     #    release mode)
     runs = []
     reproduced = False
-    for prof in ([],):
-        cmd = ["cargo", "kani", "playback", "-Z", "concrete-playback"] + prof + ["--", test]
+    for test, body in tests:
+        cmd = ["cargo", "kani", "playback", "-Z", "concrete-playback", "--", test]
         t0 = time.time()
         p = subprocess.run(cmd, cwd=base, env=_env(), stdout=subprocess.PIPE, stderr=subprocess.STDOUT,
                            timeout=1800, text=True, errors="replace")
@@ -91,15 +100,17 @@ def replay_failure(prop, res, ov, run_one):
                  (p.returncode != 0 and bool(re.search(r"thread '[^']*%s[^']*'[^\n]*panicked at" % re.escape(test), txt)))
         ran = bool(re.search(r"running 1 test", txt))
         tail = "\n".join(txt.splitlines()[-25:])
-        runs.append({"profile": "release" if prof else "dev", "ran": ran, "failed_natively": failed,
+        runs.append({"profile": "dev", "test": test, "ran": ran, "failed_natively": failed,
                      "wall_s": round(time.time() - t0, 1), "output_tail": tail})
         if failed:
             reproduced = True
+            rec["concrete_test"] = body
+            break
     rec["native_runs"] = runs
     out["mode"] = "kani concrete playback, native execution"
     out["reproduced"] = reproduced
     if not reproduced:
-        out["why"] = "the generated test passes natively in both profiles"
+        out["why"] = "the generated test(s) pass natively"
     rec["replay"] = dict(out)
     with open(path, "w") as fh:
         json.dump(rec, fh, indent=1)
